@@ -107,7 +107,7 @@ pub fn worker(scn: &dyn Scenario, seed: u64, tier: Tier, start: u64, stride: u64
             let _ = lock.flush();
         }
         let plan = scn.generate(seed, i, tier);
-        let o = scn.execute(&plan);
+        let o = sim::execute_isolated(scn, &plan);
         sim::CURRENT_INDEX.store(u64::MAX, Ordering::Relaxed);
         for (k, v) in &o.counters {
             *counters.entry(k.clone()).or_insert(0) += v;
@@ -582,7 +582,7 @@ pub fn exec_main(path: &str, with_trace: bool, echo: bool) -> i32 {
     }
     sim::CURRENT_INDEX.store(0, Ordering::Relaxed);
     crate::world::KEEP_TRACE.store(with_trace, Ordering::Relaxed);
-    let o = scn.execute(&doc["plan"]);
+    let o = sim::execute_isolated(scn, &doc["plan"]);
     sim::CURRENT_INDEX.store(u64::MAX, Ordering::Relaxed);
     let trace = if with_trace {
         crate::world::take_kept_trace()
